@@ -38,7 +38,7 @@ import (
 type mtCaseTLS struct {
 	Proto string `json:"proto"`
 	Mux   bool   `json:"mux"`
-	Kind  string `json:"kind"` // intruders | impostor-nocert | impostor-chain | inherited-cert
+	Kind  string `json:"kind"` // intruders | impostor-nocert | impostor-chain | inherited-cert | sibling-cert
 }
 
 func init() { families["mtls"] = runMTLS }
@@ -216,6 +216,12 @@ func runOneMTLS(c mtCaseTLS, base string, idx int, put func(in, obs sx.V)) {
 	if c.Proto == "grpc" {
 		mainPath = 1
 	}
+	if c.Kind == "sibling-cert" {
+		first, second := siblingCertAnswered(c.Proto, pdir)
+		rec(mainPath, 9, true, first)
+		rec(mainPath, 11, true, second)
+		return
+	}
 	if c.Kind == "inherited-cert" {
 		legit, outsider := inheritedCertAnswers(c.Proto, pdir)
 		rec(mainPath, 9, true, legit)
@@ -341,6 +347,7 @@ func runMTLS(o opts) error {
 	cs := []mtCaseTLS{{"netrpc", false, "intruders"}, {"grpc", false, "intruders"}, {"grpc", true, "intruders"},
 		{"netrpc", false, "impostor-chain"}, {"grpc", false, "impostor-chain"},
 		{"netrpc", false, "inherited-cert"}, {"grpc", false, "inherited-cert"},
+		{"netrpc", false, "sibling-cert"}, {"grpc", false, "sibling-cert"},
 		{"netrpc", false, "impostor-nocert"}, {"grpc", false, "impostor-nocert"}, {"grpc", true, "impostor-nocert"}}
 	if o.cases != "" {
 		cs = nil
@@ -385,8 +392,26 @@ func runMTLS(o opts) error {
 func impostorChainAnswered(proto, dir string) bool {
 	a, b := selfSigned(true), selfSigned(true)
 	chain := tls.Certificate{Certificate: [][]byte{b.Certificate[0], a.Certificate[0]}, PrivateKey: b.PrivateKey}
-	scfg := &tls.Config{Certificates: []tls.Certificate{chain}, ClientAuth: tls.RequestClientCert, MinVersion: tls.VersionTLS12}
-	sock := filepath.Join(dir, "impostor.sock")
+	return fakePluginSession(proto, dir, "impostor.sock", a.Certificate[0], chain)
+}
+
+// siblingCertAnswered: two AutoMTLS clients in one host process.  The first talks to a plugin that announces certificate B
+// and holds its key (nothing wrong with that one: it must be answered).  The second is launched against an impostor that
+// announces certificate A and serves with B -- the certificate of the sibling.  What the host trusts for one plugin must
+// not be trusted for another.
+func siblingCertAnswered(proto, dir string) (first, second bool) {
+	a, b := selfSigned(true), selfSigned(true)
+	first = fakePluginSession(proto, dir, "sibling1.sock", b.Certificate[0], b)
+	second = fakePluginSession(proto, dir, "sibling2.sock", a.Certificate[0], b)
+	return
+}
+
+// fakePluginSession: an in-process TLS endpoint (net/rpc: plugin.RPCServer behind tls.Server; gRPC: a health service)
+// that serves with the certificate list and key of [serve], reached by an AutoMTLS host through a scripted runner whose
+// handshake line announces the certificate [announceDER].  The answer is whether a Ping of the host was answered.
+func fakePluginSession(proto, dir, sockName string, announceDER []byte, serve tls.Certificate) bool {
+	scfg := &tls.Config{Certificates: []tls.Certificate{serve}, ClientAuth: tls.RequestClientCert, MinVersion: tls.VersionTLS12}
+	sock := filepath.Join(dir, sockName)
 	ln, err := net.Listen("unix", sock)
 	if err != nil {
 		return false
@@ -421,7 +446,7 @@ func impostorChainAnswered(proto, dir string) bool {
 		}()
 	}
 	sr := hk.NewScripted()
-	line := fmt.Sprintf("1|1|unix|%s|%s|%s\n", sock, proto, base64.RawStdEncoding.EncodeToString(a.Certificate[0]))
+	line := fmt.Sprintf("1|1|unix|%s|%s|%s\n", sock, proto, base64.RawStdEncoding.EncodeToString(announceDER))
 	sr.OnStart = func(s *hk.Scripted) { s.StdoutW.Write([]byte(line)) }
 	cl := plugin.NewClient(&plugin.ClientConfig{
 		HandshakeConfig:  plugin.HandshakeConfig{ProtocolVersion: 1, MagicCookieKey: vpCookieKey, MagicCookieValue: vpCookieVal},
